@@ -738,7 +738,7 @@ class Backend(abc.ABC):
             return desired_meas_result, new_sv, prob
         else:
             new_sv, prob = self.collapse_statevector_to_desired_measurement(statevector, qubit, 0, ignore_zero_prob=True)
-            if prob < np.random.random():
+            if prob <= np.random.random():
                 new_sv, prob = self.collapse_statevector_to_desired_measurement(statevector, qubit, 1, ignore_zero_prob=True)
                 return "1", new_sv, prob
             else:
